@@ -10,7 +10,7 @@ From DV Require Import Common.Res Common.Str Common.Jv.
 From DV Require Content.Model Content.Spec Json.Model Json.ProofsCodec Json.ProofsStruct.
 From DV Require Import Ext.Types Ext.Classes Ext.Seq Ext.Model Ext.Spec Ext.ValidFacts Ext.ProofsValidBase
      Ext.Ops Ext.ProofsValidOps.
-From DV Require Import Link.Abs Link.ProofsNames Link.ProofsReps Link.ProofsTo Link.ProofsOf.
+From DV Require Import Link.Abs Link.ProofsNames Link.ProofsReps Link.ProofsTo Link.ProofsOf Link.ProofsProv.
 Import ListNotations.
 Local Open Scope nat_scope.
 
@@ -60,5 +60,54 @@ Section WithTok.
     destruct (run_valid veqb vnone Hrefl ops e r Hv Hn Hd Hrun) as [Hv' Hn'].
     split; [exact Hv'|]. split; [exact Hn'|]. split; [apply (valid_to_content qtok r Hv')|].
     apply serialisable. exact Hv'.
+  Qed.
+
+  (** ** With provenance: nothing that is not JSON well formed can get into a result *)
+
+  Definition wf_value (v : jv) : Prop := JM.wfb v = true.
+  Definition wf_key (k : key) : Prop := forallb JM.scalar k = true.
+  Definition wf_aff (a : list (list Q)) : Prop := forallb (forallb (fun q => JM.float_tok (qtok q))) a = true.
+
+  (** keys / values / affine tokens of an extension are JSON well formed *)
+  Definition jsonable (e : jext) : Prop := ext_wf_json e = true /\ aff_toks_ok qtok (hdr_of e) = true.
+  (** ... and so is everything the operations of a history bring in from outside: the partners and affine argument
+      of a merge, the key and values of an inject *)
+  Definition ops_jsonable (ops : list (op jv)) : Prop := ops_ok wf_value wf_key wf_aff ops.
+
+  Lemma jsonable_inv e : jsonable e <-> inv wf_value wf_key wf_aff e.
+  Proof.
+    unfold jsonable, inv, eP, eQ, ext_wf_json, aff_toks_ok, wf_aff, wf_value, wf_key. rewrite forallb_forall, !Forall_forall. split.
+    - intros [H Ha]. split; [|split; [|exact Ha]]; intros x Hx; specialize (H x Hx); apply andb_true_iff in H as [H1 H2].
+      + apply Forall_forall. rewrite forallb_forall in H2. exact H2.
+      + exact H1.
+    - intros [Hp [Hq Ha]]. split; [|exact Ha]. intros x Hx. apply andb_true_iff. split; [apply (Hq x Hx)|].
+      apply forallb_forall. specialize (Hp x Hx). rewrite Forall_forall in Hp. exact Hp.
+  Qed.
+
+  Theorem run_jsonable (veqb : jv -> jv -> bool) (ops : list (op jv)) (e r : jext) :
+    run veqb JNull ops e = Ok r -> jsonable e -> ops_jsonable ops -> jsonable r.
+  Proof.
+    intros H He Ho. apply jsonable_inv. apply (run_inv veqb JNull wf_value wf_key wf_aff eq_refl ops e r H); [|exact Ho].
+    apply jsonable_inv. exact He.
+  Qed.
+
+  (** EVERY extension produced by a history of operations from JSON-well-formed material is valid, passes
+      check_valid, is written by to_json and read back by from_json to the very same content *)
+  Theorem closure_reloads (veqb : jv -> jv -> bool) :
+    (forall v, veqb v v = true) ->
+    forall (ops : list (op jv)) (e r : jext),
+      valid e -> nondegenerate e -> ops_dom veqb JNull ops e -> jsonable e -> ops_jsonable ops ->
+      run veqb JNull ops e = Ok r ->
+      valid r /\ nondegenerate r /\ jsonable r /\
+      JM.to_json CM.check_valid (to_content qtok r) = Ok (JM.print (to_content qtok r)) /\
+      JM.from_json CM.check_valid (JM.print (to_content qtok r)) = Ok (to_content qtok r).
+  Proof.
+    intros Hrefl ops e r Hv Hn Hd Hj Ho Hrun.
+    destruct (run_valid veqb JNull Hrefl ops e r Hv Hn Hd Hrun) as [Hv' Hn'].
+    pose proof (run_jsonable veqb ops e r Hrun Hj Ho) as [Hw Ha].
+    split; [exact Hv'|]. split; [exact Hn'|]. split; [split; assumption|].
+    split; [apply to_json_valid; exact Hv'|].
+    apply (JS.from_to CM.check_valid); [|apply to_json_valid; exact Hv'].
+    apply wf_to_content; [apply Hv' | exact Hw | exact Ha].
   Qed.
 End WithTok.
